@@ -84,6 +84,9 @@ func vfC18StaticallyRedundant(ops []int) bool {
 // vfC18RunSeq runs one schedule inside the current bubble.
 func vfC18RunSeq(mode vfC18Mode, ops []int, salt int) vfC18SeqResult {
 	p := vfC18NewPort()
+	// without burst every operation starts from a quiescent point, so no Listen* can land
+	// on a mux that is already shutting down
+	p.strictLiveness = !mode.Burst
 	var res vfC18SeqResult
 	var hs, hh net.Listener
 	step := func(desc string) {
